@@ -228,6 +228,7 @@ class Defn:
         self.fp: dict = {}              # name -> kind
         self.fu: dict = {}
         self.uid = 0
+        self.super_n = 0                # the first super_n names go to an old-style superclass __init__
         self.nform: dict = {}           # form -> {field index -> form of the nested class}
         self.classes: dict = {}
         self.depth = 0
@@ -239,7 +240,7 @@ class Defn:
         raise KeyError(name)
 
     def dable(self):
-        if any(f.kind == "bits" for f in self.fields):
+        if any(f.kind == "bits" for f in self.fields) or self.super_n:
             return False
         return not any(isinstance(v, (list, dict, set)) for v in self.defaults.values())
 
@@ -247,7 +248,7 @@ class Defn:
         return ["I", "C"] + (["D"] if self.dable() else [])
 
     def shape(self):
-        return (tuple((f.kind, f.fmt, f.sub.shape() if f.sub else None) for f in self.fields), self.user_init,
+        return (tuple((f.kind, f.fmt, f.sub.shape() if f.sub else None) for f in self.fields), self.user_init, self.super_n,
                 tuple(sorted(self.defaults)), tuple(sorted(self.fp)), tuple(sorted(self.fu)))
 
 
@@ -308,6 +309,12 @@ def gen_defn(rng, formats, depth=0, max_fields=12) -> Defn:
         nd = min(nd, len(d.names))
         for n in d.names[len(d.names) - nd:]:
             d.defaults[n] = gen_default(rng, d, n)
+    if d.user_init is None and rng.random() < 0.22:
+        lead = 0
+        while lead < len(d.fields) and d.fields[lead].kind == "prim":
+            lead += 1
+        if lead:
+            d.super_n = rng.randrange(1, lead + 1)
     for form in ("I", "C", "D"):
         d.nform[form] = {}
         for i, f in enumerate(d.fields):
@@ -410,6 +417,25 @@ def annotation_for(d: Defn, i: int, f: Field, rng_choice=0):
     return PY_TYPES[ty]
 
 
+def old_style_base(d: Defn):
+    """an old-style Payload whose __init__ takes the first super_n field names and stores them"""
+    from ipv8.messaging.serialization import Payload
+    names = d.names[:d.super_n]
+    fmts = [f.fmt for f in d.fields[:d.super_n]]
+    src = f"def __init__(self, {', '.join(names)}):\n" + "".join(f"    self.{n} = {n}\n" for n in names)
+    env = {}
+    exec(src, env)
+
+    def to_pack_list(self):
+        return [(f, getattr(self, n)) for f, n in zip(fmts, names)]
+
+    def from_unpack_list(cls, *args):
+        return cls(*args)
+
+    return type(f"Old{d.uid}", (Payload,), {"format_list": list(fmts), "__init__": env["__init__"],
+                                            "to_pack_list": to_pack_list, "from_unpack_list": classmethod(from_unpack_list)})
+
+
 def build(d: Defn, form: str, fresh=False):
     """the class of definition `d` in `form`; raises whatever class creation raises"""
     if not fresh and form in d.classes:
@@ -424,7 +450,8 @@ def build(d: Defn, form: str, fresh=False):
             ns = namespace_for(d, form)
             ns["format_list"] = fmt_list_for(d, form)
             ns["names"] = list(d.names)
-            cls = type(f"N{d.uid}", (VariablePayload,), ns)
+            bases = (VariablePayload, old_style_base(d)) if d.super_n else (VariablePayload,)
+            cls = type(f"N{d.uid}", bases, ns)
             if form == "C":
                 cls = vp_compile(cls)
         else:
@@ -560,6 +587,8 @@ def defn_tokens(d: Defn, form: str):
         fm = "[" + ",".join(items) + "]"
     names = "[" + ",".join(d.names) + "]"
     init = {None: "-", "kw": "kw", "nokw": "nokw"}[d.user_init]
+    if d.super_n and form != "D":
+        init = f"super:{d.super_n}"
     dfl = []
     for j, n in enumerate(d.names):
         if n in d.defaults:
@@ -768,6 +797,26 @@ def call_shapes(rng, d: Defn, n_valid, n_invalid):
 # ---------------------------------------------------------------------------------------------------------------
 
 
+def compose_bytes(ser, obj):
+    """bytes of an instance computed compositionally, the way the Lean model `bytesOf`/`packerWith` does: a nested
+    instance contributes pack(">H", len) + its own bytes, a payload list pack(">B", count) + that per item"""
+    from struct import pack
+    out = b""
+    for ent in obj.to_pack_list():
+        tag, args = ent[0], ent[1:]
+        if tag == "payload":
+            inner = compose_bytes(ser, args[0])
+            out += pack(">H", len(inner)) + inner
+        elif tag == "payload-list":
+            out += pack(">B", len(args[0]))
+            for it in args[0]:
+                inner = compose_bytes(ser, it)
+                out += pack(">H", len(inner)) + inner
+        else:
+            out += ser.get_packer_for(tag).pack(*args)
+    return out
+
+
 class Stub:
     def __init__(self, pl):
         self.pl = pl
@@ -795,7 +844,7 @@ def serializer():
 def defn_replay(d: Defn):
     return {"fields": [{"kind": f.kind, "fmt": f.fmt, "names": f.names, "ty": f.ty,
                         "sub": defn_replay(f.sub) if f.sub else None} for f in d.fields],
-            "user_init": d.user_init, "defaults": {k: repr(v) for k, v in d.defaults.items()},
+            "user_init": d.user_init, "super_n": d.super_n, "defaults": {k: repr(v) for k, v in d.defaults.items()},
             "fix_pack": d.fp, "fix_unpack": d.fu, "nested_forms": {k: {str(i): v for i, v in m.items()}
                                                                    for k, m in d.nform.items()}}
 
@@ -838,6 +887,7 @@ class Run:
         ctx.count(f"def:fields={len(d.fields)}")
         ctx.count(f"def:names={min(len(d.names), 40) // 4 * 4}+")
         ctx.count(f"def:user_init={d.user_init}")
+        ctx.count(f"def:old-style-super={min(d.super_n, 3)}")
         ctx.count(f"def:defaults={min(len(d.defaults), 4)}")
         ctx.count(f"def:hooks={min(len(d.fp) + len(d.fu), 4)}")
         ctx.count(f"def:depth={d.depth}")
@@ -851,6 +901,14 @@ class Run:
             ctx.count("def:bits-not-last")
         forms = d.forms()
         ctx.count("forms:" + "".join(forms))
+        for form in forms:
+            for i, f in enumerate(d.fields):
+                if f.sub is not None:
+                    ctx.count(f"nested-form:{form}-holds-{d.nform[form][i]}")
+        for n_, k_ in d.fp.items():
+            ctx.count(f"hook:fix_pack:{k_}")
+        for n_, k_ in d.fu.items():
+            ctx.count(f"hook:fix_unpack:{k_}")
         # --- class creation -----------------------------------------------------------------------
         classes = {}
         for form in forms:
@@ -974,6 +1032,12 @@ class Run:
                 rb = attempt(lambda: self.ser.pack_serializable(obj))
                 bts[form] = rb
                 ctx.count(f"bytes-outcome:{form}:{rb[0] if rb[0] == 'ok' else rb[1]}")
+                if rb[0] == "ok" and any(f.sub is not None for f in d.fields):
+                    rc = attempt(lambda: compose_bytes(self.ser, obj))
+                    ctx.count("bytes:compositional-" + ("same" if rc == rb else "differs"))
+                    if rc != rb:
+                        ctx.oracle_fail("pack_serializable:nesting-structure", "bytes of a nested instance are not "
+                                        "len16 + bytes(inner) / count8 + items as modelled", {**rep_d, "form": form})
                 if r[0] == "ok":
                     rs = attempt(lambda: self.ser.pack_serializable(Stub(r[1])))
                     if rs != rb:
@@ -1641,7 +1705,7 @@ def generate(ctx: Ctx):
 def run(ctx: Ctx):
     if ctx.replay_input is not None:
         return replay(ctx, ctx.replay_input)
-    run_all(ctx, ctx.scale(400, 6000), ctx.model_ok, ctx.scale(3, 4), ctx.scale(4, 40))
+    run_all(ctx, ctx.scale(300, 6000), ctx.model_ok, ctx.scale(3, 4), ctx.scale(4, 40))
 
 
 def search(ctx: Ctx, reason: str):
@@ -1666,6 +1730,7 @@ def defn_from_replay(rec) -> Defn:
                               (f["ty"][:3] + f"N{sub.uid}") if sub is not None else f["ty"]))
     d.names = [n for f in d.fields for n in f.names]
     d.user_init = rec["user_init"]
+    d.super_n = rec.get("super_n", 0)
     d.defaults = {k: eval(v, {}) for k, v in rec["defaults"].items()}
     d.fp, d.fu = rec["fix_pack"], rec["fix_unpack"]
     d.nform = {k: {int(i): v for i, v in m.items()} for k, m in rec["nested_forms"].items()}
